@@ -28,6 +28,12 @@ def build(tier, seed):
             c = cc.Case()
             c.sc, c.profile, c.mode, c.seed = sc, prof, m, s
             cases.append(c)
+    for k in range(20 if tier == "quick" else 400):
+        sc = gen.gen_idle_throttled(seed * 1000 + k)
+        for m in ("loop", "dispatch"):
+            c = cc.Case()
+            c.sc, c.profile, c.mode, c.seed = sc, "idle_throttled", m, seed * 1000 + k
+            cases.append(c)
     return cases
 
 
